@@ -409,6 +409,55 @@ class FrontEnds:
         return V, 1
 
 
+class PalMap:
+    """Pal variables -> Cartesian through reb_particle_from_pal and Particle(a=,l=,h=,k=,ix=,iy=), and back"""
+    def __init__(self, rebound):
+        self.rebound = rebound
+
+    def __call__(self, task):
+        import ctypes
+        from .c16 import mp_pal_to_cart
+        e, pom, lam, inc, Om, a, G, M0, m = task
+        rebound = self.rebound
+        cl = rebound.clibrebound
+        rb.quiet()
+        h, k = e * math.sin(pom), e * math.cos(pom)
+        ix, iy = 2 * math.sin(inc / 2) * math.cos(Om), 2 * math.sin(inc / 2) * math.sin(Om)
+        ref = mp_pal_to_cart(G, M0, m, *[mp.mpf(v) for v in (a, lam, h, k, ix, iy)])
+        prim = rebound.Particle(m=M0)
+        cl.reb_particle_from_pal.restype = rebound.Particle
+        c = cl.reb_particle_from_pal(ctypes.c_double(G), prim, *[ctypes.c_double(v) for v in (m, a, lam, k, h, ix, iy)])
+        sim = rebound.Simulation()
+        sim.G = G
+        sim.add(m=M0)
+        sim.add(m=m, a=a, l=lam, h=h, k=k, ix=ix, iy=iy)
+        py = sim.particles[1]
+        V = []
+        sp = max(abs(v) for v in ref[:3])
+        sv = max(abs(v) for v in ref[3:])
+        tag = "a=%r lambda=%r h=%r k=%r ix=%r iy=%r (e=%g) G=%g M=%g m=%g" % (a, lam, h, k, ix, iy, e, G, M0, m)
+        for name, p in (("reb_particle_from_pal", c), ("Particle(a,l,h,k,ix,iy)", py)):
+            got = [p.x, p.y, p.z, p.vx, p.vy, p.vz]
+            for j in range(6):
+                tol = 1e-12 / (1 - e) ** 2 * (sp if j < 3 else sv)
+                if not abs(mp.mpf(got[j]) - ref[j]) <= tol:
+                    V.append(("pal-forward:%s" % ("lowe" if e * e < 0.09 else "highe"), "%s: component %d is %r, the definition of Pal's variables gives %s [%s]" % (name, j, got[j], mp.nstr(ref[j], 17), tag)))
+                    break
+        # and back
+        out = [ctypes.c_double() for _ in range(6)]
+        cl.reb_tools_particle_to_pal(ctypes.c_double(G), c, prim, *[ctypes.byref(o) for o in out])
+        back = [o.value for o in out]        # a, lambda, k, h, ix, iy
+        want = [a, lam, k, h, ix, iy]
+        for j, nm in enumerate(("a", "lambda", "k", "h", "ix", "iy")):
+            d = back[j] - want[j]
+            if nm == "lambda":
+                d = math.remainder(d, TWO_PI)
+            if not abs(d) <= 1e-11 / (1 - e) ** 2 * max(1.0, abs(want[j])):
+                V.append(("pal-roundtrip", "particle_to_pal(from_pal(.)).%s = %r instead of %r [%s]" % (nm, back[j], want[j], tag)))
+                break
+        return V, 1
+
+
 def run(ctx):
     rebound = ctx.use("rel")
     # (A)
@@ -479,10 +528,23 @@ def run(ctx):
         nacc += k
         for sig, what in V:
             ctx.violation(sig, what, {"kind": "frontends", "task": list(t)})
+    # (F) Pal's variables: forward map and round trip on an eccentricity lattice that straddles the solver's internal switch at e=0.3
+    pt = [(e, pom, -3.0 + 0.55 * j, inc, Om, a, G, M0, m)
+          for e in (0.0, 1e-8, 0.05, 0.15, 0.2, 0.25, 0.29, 0.2999, 0.3, 0.3001, 0.6, 0.95)
+          for pom in (0.0, 1.3, -2.0, 3.0) for j in range(12) for (inc, Om) in ((0.0, 0.0), (0.4, 0.7), (2.6, -2.0))
+          for (a, G, M0, m) in ((1.3, 1.0, 1.0, 1e-3), (0.2, 39.476926421373, 0.8, 0.0))]
+    pt = ctx.shuffled(pt)
+    pres = pool.run_tasks(PalMap(rebound), pt, timeout=120, chunk=32)
+    for t, r in zip(pt, pres):
+        if r[0] != "ok":
+            ctx.violation("pal-%s" % r[0], "%s in Pal case %s: %s" % (r[0], t, str(r[1])[-400:]), {"kind": "pal", "task": list(t)})
+            continue
+        for sig, what in r[1][0]:
+            ctx.violation(sig, what, {"kind": "pal", "task": list(t)})
     cov = {
-        "evaluations": len(at) + len(et) + len(ft), "distinct_nontrivial": len(at) + nel + nacc,
+        "evaluations": len(at) + len(et) + len(ft) + len(pt), "distinct_nontrivial": len(at) + nel + nacc + len(pt),
         "rule": "anomaly functions on 15 eccentricities x 18 mean anomalies; element lattice G x primary x m x (e,a) x 10 inclinations (planar limits, retrograde) x Omega x omega|pomega x 6 anomaly kinds x values; "
-                "every subset of <=4 of the 26 argument names through the C and the Python front end; 10 invalid value combinations",
+                "every subset of <=4 of the 26 argument names through the C and the Python front end; 10 invalid value combinations; Pal forward map and round trip on 12 eccentricities x 4 pericentre longitudes x 12 mean longitudes x 3 orientations x 2 unit systems",
         "samples": [list(at[0]), list(et[0]), list(ft[0])], "accepted_subsets": nacc, "element_cases_accepted": nel, "exhaustive": True,
     }
     return ctx.finish(LEVEL, cov, assumptions=[
@@ -501,6 +563,8 @@ def replay(ctx, case):
         t = list(t)
         t[1] = tuple(t[1])
         V, _ = Elements(rebound)(tuple(t))
+    elif k == "pal":
+        V, _ = PalMap(rebound)(tuple(t))
     else:
         V, _ = FrontEnds(rebound)(tuple(t))
     for v in V:
